@@ -105,6 +105,10 @@ Definition req_step (m0 : mstate) (op : oop) : mstate :=
       if k_live i then
         if (k_app i =? rq_app r) && (k_st i =? K_Out) && negb (rq_node r =? 0)
         then set_key m (rq_key r) (mkK (k_app i) K_Out (rq_node r) true (k_ann i) (k_rel i) (k_echo i) (k_new i))
+        else if (k_st i =? K_Out) && negb (match k_ann i with [] => true | _ => false end) && (rq_node r =? 0)
+        (* the core has announced the release of this outstanding ask (a placeholder ask dropped by the placeholder
+           timeout, ...): the ask is gone on the core's side, so a request under the same key is a new submission *)
+        then set_key m (rq_key r) (mkK (rq_app r) K_Out 0 false [] false false true)
         else m
       else set_key m (rq_key r) (mkK (rq_app r) K_Out (rq_node r) (negb (rq_node r =? 0)) [] false false true)
   | OpRelease app key ty =>
